@@ -98,6 +98,31 @@ def perturb_same_type(rng, v, T):
                 i = rng.randrange(len(fields))
                 fields[i] = (fields[i][0], G.gen_any_value(rng, 1))
                 return ("a", fields)
+        if sub_t in ("any", "anyobj") and x[0] in ("o", "a") and rng.random() < 0.7:
+            # descend to some nested object and drop or add one field (sub-object / super-object)
+            def mut(y):
+                if y[0] in ("o", "a"):
+                    fields = list(y[1])
+                    inner = [i for i, (_, z) in enumerate(fields) if z[0] in ("o", "a", "l", "some")]
+                    if inner and rng.random() < 0.5:
+                        i = rng.choice(inner)
+                        fields[i] = (fields[i][0], mut(fields[i][1]))
+                        return (y[0], fields)
+                    if fields and rng.random() < 0.5:
+                        del fields[rng.randrange(len(fields))]
+                    else:
+                        extra = next((q for q in G.KEYS if q not in dict(fields)), "zz")
+                        fields.append((extra, G.gen_any_value(rng, 0)))
+                    return (y[0], fields)
+                if y[0] == "l" and y[1]:
+                    xs = list(y[1])
+                    i = rng.randrange(len(xs))
+                    xs[i] = mut(xs[i])
+                    return ("l", xs)
+                if y[0] == "some":
+                    return ("some", mut(y[1]))
+                return G.gen_any_value(rng, 1)
+            return mut(x)
         if isinstance(sub_t, tuple) and sub_t[0] == "list" and x[0] == "l" and rng.random() < 0.5:
             xs = list(x[1])
             if xs and rng.random() < 0.5:
@@ -468,6 +493,15 @@ def check_programs(ctx, progs):
 # ---------------------------------------------------------------------------
 
 FIXED_WITNESSES = [
+    # objects nested under `any` may have different field sets (JSON-derived): a sub-object is not equal to its super-object,
+    # in either direction, at any depth
+    ("anyobj", ("a", [("dev", ("o", [("id", ("i", 1))]))]), ("a", [("dev", ("o", [("id", ("i", 1)), ("power", ("b", True))]))]),
+     ("a", [("dev", ("o", [("id", ("i", 1))]))])),
+    ("anyobj", ("a", [("dev", ("o", [("id", ("i", 1)), ("power", ("b", True))]))]), ("a", [("dev", ("o", [("id", ("i", 1))]))]),
+     ("a", [("dev", ("o", [("power", ("b", True)), ("id", ("i", 1))]))])),
+    (("list", "any"), ("l", [("o", [("k", ("s", "v"))]), ("a", [])]), ("l", [("o", [("k", ("s", "v")), ("m", ("null",))]), ("a", [])]),
+     ("l", [("o", []), ("a", [])])),
+    (("opt", "any"), ("some", ("o", [])), ("some", ("o", [("x", ("i", 0))])), ("some", ("a", []))),
     # pairs (type, a, b, c) exercising the fixed findings; judged by the generic oracle
     ("anyobj", ("a", [("a", ("i", 1))]), ("a", [("a", ("i", 1)), ("b", ("i", 2))]), ("a", [("a", ("i", 1))])),     # X2
     ("anyobj", ("a", [("a", ("s", "x"))]), ("a", [("a", ("i", 1))]), ("a", [("a", ("s", "x"))])),                  # X20
